@@ -16,6 +16,7 @@ RULE = (
     "least squares for n in 1..Nmax; TimeSeries.deredden == input - running filter. Non-trivial = window > 1 or factor > 1; windows "
     "larger than the data are counted separately"
 )
+SCALE_LANE = 'detrending of 65 537 .. 3 000 017 samples; constant uint8 blocks for every factor pair up to 24 x 16'
 ASSUMPTIONS = [
     "for even window widths either of the two possible centres is accepted (the statement cannot distinguish them); odd widths pin the alignment",
     "integer-typed outputs (uint8 mean kernels) are compared with floor(mean); float outputs within 64*eps(dtype)*max|x|*sqrt(n)",
